@@ -14,15 +14,40 @@ from ..ref import refexec
 class Case(object):
     """One generated schema with its world, bound to a py_gql Schema object."""
 
-    def __init__(self, rng, seed_key, world_kw=None, schema_kw=None, log=None, wrap=None, served=None):
+    def __init__(self, rng, seed_key, world_kw=None, schema_kw=None, log=None, wrap=None, served=None, mode="code"):
         self.ir = S.generate(rng, **(schema_kw or {}))
+        self.mode = mode
+        if mode == "sdl":
+            from ..ref import canon
+
+            # what SDL can carry: enum values are their names, scalars transparent, no python names
+            self.ir = canon.sdl_view(self.ir)
         self.world = World(self.ir, seed_key, served=served, **(world_kw or {}))
         self.binding = Binding(self.world, log=log, wrap=wrap)
-        self.schema, self.built = S.build_code_schema(
-            self.ir,
-            resolver_for=self.binding.resolver_for,
-            type_resolver_for=self.binding.type_resolver_for,
-        )
+        if mode == "sdl":
+            import py_gql
+
+            text = S.to_sdl(self.ir, rng, split_extensions=True, shuffle=True,
+                            split_kinds=("object", "interface", "union"))[0]
+            self.schema = py_gql.build_schema(text)
+            self.built = dict(self.schema.types)
+            # resolvers registered through the public ResolverMap API of the schema
+            for t in self.ir.types.values():
+                if t.kind == "object":
+                    for f in t.fields:
+                        fn = self.binding.resolver_for(t.name, f.name)
+                        if fn is not None:
+                            self.schema.register_resolver(t.name, f.name, fn)
+                elif t.kind in ("interface", "union"):
+                    fn = self.binding.type_resolver_for(t.name)
+                    if fn is not None:
+                        self.schema.types[t.name].resolve_type = fn
+        else:
+            self.schema, self.built = S.build_code_schema(
+                self.ir,
+                resolver_for=self.binding.resolver_for,
+                type_resolver_for=self.binding.type_resolver_for,
+            )
         self.sg = S.SchemaGen(rng)
         self.sg.s = self.ir
 
